@@ -60,6 +60,18 @@ CLAIMED = {
     note=("Trusted: lianvc + encoding, z3; CFG predecessor/edge-kind queries as uninterpreted functions (get_graph_edge_weight: bounded stand-in); symbol space lookups uninterpreted; "
           "graph writes opaque. Two genuine defects repaired by fix: commits (edge kinds of MultiDiGraphs, skipped kill), one recorded (F8)."),
     design='§4 C06'),
+ 'C11': dict(
+    text=("Proof (partial: the rule side; the data-dependence side is not decided): on the real taint_analysis.py, for all state flow graphs and rule lists: "
+          "TaintRuleApplier.get_sink_tag_by_rules takes a rule as matching only if it is a configured sink rule whose operation/name clause holds, ORs a predecessor's tag into the "
+          "sink tag only over a SYMBOL_IS_USED edge whose (receiver-adjusted) position is the one the rule target names under the documented %arg0..%arg4/%receiver mapping (or a "
+          "wildcard target), takes from-code contributions only for a from-code rule naming the line and symbol, yields 0 without rules or for a non-statement node, modifies nothing "
+          "(graph edges, rules, environment) and cannot raise UnboundLocalError; check_method_name is exactly the dotted-suffix match with %anyname; "
+          "should_apply_call_stmt_sink_rules / apply_record_write_sink_rules / apply_field_write_sink_rules answer True only through a configured rule of that kind whose stated "
+          "unit-name/unit-path/line restrictions and name/key clause hold (False without rules); TaintAnalysis.find_flows reports a (source, sink) pair only when the sink tag shares "
+          "a bit with the tag propagated from the source, evaluates every pair in a fresh TaintEnv, restores the analysis-wide environment, reports nothing without sources or sinks. "
+          "Recorded finding F6: the language restriction of a rule is never read. Not decided: that a tag intersection implies a program dependence; source appliers; monotonicity."),
+    note=("Trusted: lianvc + encoding, z3; networkx graph queries and str.split as uninterpreted functions; tags as 16-bit vectors; propagation and path reconstruction opaque."),
+    design='§4 C11'),
  'C13': dict(
     text=("Proof (partial: the bounding invariants only; termination and running time are NOT decided): on the real source, for all frames, worklists and counter "
           "tables: P2PrelimSemanticAnalysis.analyze_stmts lets a statement reach compute_stmt_states only while its round counter is below its bound "
